@@ -182,7 +182,7 @@ def check(pid, tier, seed):
     verdict = common.Verdict(pid)
     exes = build_all()
     mcs = [common.model_check(pool.SPEC, "MC_Pool.tla", "MC_Pool_%s.cfg" % c, "PoolImpl NoRace " + c, heap="16g") for c in pool.configs(tier)]
-    n = {"quick": 400, "thorough": 8000}[tier]
+    n = {"quick": 400, "thorough": 30000}[tier]
     batches = []
     s1, c1 = lock.y_scripts(seed, n, "mixed")
     batches.append(("lock", s1, c1))
